@@ -26,10 +26,11 @@ const (
 	itGate
 	itPoison
 	itStop
+	itCrashI // panics with *actor.InternalError: restarted without touching the budget, no ActorRestartedEvent
 )
 
 func (k itemKind) String() string {
-	return [...]string{"msg", "crash", "gate", "POISON", "STOP"}[k]
+	return [...]string{"msg", "crash", "gate", "POISON", "STOP", "icrash"}[k]
 }
 
 type item struct {
@@ -52,13 +53,14 @@ type scriptSpec struct {
 	Segments     [][]item     // segment 0 is one gate; segment k>0 is sent while gate k-1 is held; all but the last end with a gate
 	Children     int          // children spawned by incarnation 1 in Started
 	WithSender   bool
+	CtxCancel    int    // 0: default spawn context; 1: WithContext(ctx) cancelled before Spawn; 2: cancelled right after Spawn
 	LateFor      int    // id of a crash item: as soon as it has been received a concurrent goroutine sends Late (0 = none)
 	Late         []item // msg items only; they must be delivered after everything buffered behind the crash, before the next segment
 }
 
 func (s *scriptSpec) String() string {
 	var sb strings.Builder
-	fmt.Fprintf(&sb, "inbox=%d maxRestarts=%d delay=%v mw=%d children=%d", s.InboxSize, s.MaxRestarts, s.RestartDelay, s.MW, s.Children)
+	fmt.Fprintf(&sb, "inbox=%d maxRestarts=%d delay=%v mw=%d children=%d ctxCancel=%d", s.InboxSize, s.MaxRestarts, s.RestartDelay, s.MW, s.Children, s.CtxCancel)
 	if len(s.CrashInit) > 0 {
 		fmt.Fprintf(&sb, " crashInit=%v", keys(s.CrashInit))
 	}
@@ -101,7 +103,7 @@ type expEv struct {
 
 func (e expEv) String() string {
 	switch e.Kind {
-	case "msg", "crash", "gate":
+	case "msg", "crash", "gate", "icrash":
 		return fmt.Sprintf("%d:%s%d", e.Inc, e.Kind, e.ID)
 	}
 	return fmt.Sprintf("%d:%s", e.Inc, e.Kind)
@@ -121,6 +123,7 @@ type simResult struct {
 	replayCrash  bool
 	pillInReplay bool
 	lateSent     bool
+	internalRestarts int
 }
 
 type sim struct {
@@ -174,6 +177,15 @@ func (s *sim) tryRestart() {
 	s.start()
 }
 
+// internalRestart mirrors the InternalError path: the failed incarnation is
+// stopped and replaced without consuming the budget and without an event.
+func (s *sim) internalRestart() {
+	s.r.crashes++
+	s.r.internalRestarts++
+	s.logf("Stopped", 0)
+	s.start()
+}
+
 func (s *sim) cleanup() {
 	s.stopped = true
 	s.logf("Stopped", 0)
@@ -189,6 +201,8 @@ func (s *sim) deliver(it item) {
 		s.r.gateEntered[it.ID] = true
 	case itCrash:
 		s.logf("crash", it.ID)
+	case itCrashI:
+		s.logf("icrash", it.ID)
 	}
 }
 
@@ -206,6 +220,12 @@ func (s *sim) invoke(batch []item) {
 			s.mbuffer = append([]item(nil), batch[i+1:]...)
 			s.tryRestart()
 			return
+		case itCrashI:
+			s.deliver(it)
+			s.r.crashKinds["internal"]++
+			s.mbuffer = append([]item(nil), batch[i+1:]...)
+			s.internalRestart()
+			return
 		case itPoison:
 			if s.inReplay > 0 {
 				s.r.pillInReplay = true
@@ -221,6 +241,13 @@ func (s *sim) invoke(batch []item) {
 					s.r.drainCrash = true
 					s.mbuffer = append(append([]item(nil), rest[j+1:]...), it)
 					s.tryRestart()
+					return
+				case itCrashI:
+					s.deliver(d)
+					s.r.crashKinds["internal"]++
+					s.r.drainCrash = true
+					s.mbuffer = append(append([]item(nil), rest[j+1:]...), it)
+					s.internalRestart()
 					return
 				default:
 					s.deliver(d)
@@ -298,7 +325,7 @@ type recEv struct {
 
 func (e recEv) String() string {
 	switch e.Kind {
-	case "msg", "crash", "gate":
+	case "msg", "crash", "gate", "icrash":
 		return fmt.Sprintf("%d:%s%d", e.Inc, e.Kind, e.ID)
 	case "enter", "exit":
 		return fmt.Sprintf("mw%d-%s", e.Layer, e.Kind)
@@ -424,6 +451,8 @@ func (a *scriptedActor) Receive(c *actor.Context) {
 			<-m.gate.release
 		case itCrash:
 			panic(fmt.Sprintf("scripted crash on message %d", m.ID))
+		case itCrashI:
+			panic(&actor.InternalError{From: "verif-scripted", Err: fmt.Errorf("scripted internal error on message %d", m.ID)})
 		}
 	default:
 		// anything else reaching Receive is a leak (e.g. a poison pill)
@@ -585,23 +614,42 @@ func runScript(c *caseCtx, spec *scriptSpec) (out scriptOutcome) {
 		return &scriptedActor{inc: n, rec: rec, spec: spec, startGate: startGate, children: kids, sawPill: &sawPill}
 	}
 	opts := []actor.OptFunc{actor.WithID("a"), actor.WithInboxSize(spec.InboxSize), actor.WithMaxRestarts(spec.MaxRestarts), actor.WithRestartDelay(spec.RestartDelay)}
-	if spec.MW > 0 {
-		var mws []actor.MiddlewareFunc
-		for i := 0; i < spec.MW; i++ {
-			i := i
-			mws = append(mws, func(next actor.ReceiveFunc) actor.ReceiveFunc {
-				return func(ctx *actor.Context) {
-					k, id := describeMsg(ctx.Message())
-					rec.add(recEv{Kind: "enter", Layer: i, ID: id, Sender: k + "|" + pidStr(ctx.Sender())}, false)
-					defer func() {
-						k2, id2 := describeMsg(ctx.Message())
-						rec.add(recEv{Kind: "exit", Layer: i, ID: id2, Sender: k2 + "|" + pidStr(ctx.Sender())}, false)
-					}()
-					next(ctx)
+	mkMW := func(layer int) actor.MiddlewareFunc {
+		return func(next actor.ReceiveFunc) actor.ReceiveFunc {
+			return func(ctx *actor.Context) {
+				if ctx.PID().ID != "scripted/a" {
+					next(ctx) // the decoy actor shares these functions; only the scripted actor is recorded
+					return
 				}
-			})
+				k, id := describeMsg(ctx.Message())
+				rec.add(recEv{Kind: "enter", Layer: layer, ID: id, Sender: k + "|" + pidStr(ctx.Sender())}, false)
+				defer func() {
+					k2, id2 := describeMsg(ctx.Message())
+					rec.add(recEv{Kind: "exit", Layer: layer, ID: id2, Sender: k2 + "|" + pidStr(ctx.Sender())}, false)
+				}()
+				next(ctx)
+			}
 		}
-		opts = append(opts, actor.WithMiddleware(mws...))
+	}
+	// The chain is handed over the way callers do it: a shared slice with spare capacity for the common
+	// layers plus a separate option for the last one. The slice stays the caller's: it is reused for a
+	// second spawn and overwritten afterwards, neither of which may change the chain given at this spawn.
+	var sharedMW []actor.MiddlewareFunc
+	if spec.MW > 0 {
+		sharedMW = make([]actor.MiddlewareFunc, spec.MW-1, spec.MW+3)
+		for i := range sharedMW {
+			sharedMW[i] = mkMW(i)
+		}
+		opts = append(opts, actor.WithMiddleware(sharedMW...), actor.WithMiddleware(mkMW(spec.MW-1)))
+	}
+	var cancelSpawnCtx context.CancelFunc
+	if spec.CtxCancel > 0 {
+		sctx, cancel := context.WithCancel(context.Background())
+		cancelSpawnCtx = cancel
+		opts = append(opts, actor.WithContext(sctx))
+		if spec.CtxCancel == 1 {
+			cancel()
+		}
 	}
 	senderPID := actor.NewPID("local", "verif/sender")
 	send := func(pid *actor.PID, m *uMsg) {
@@ -638,6 +686,21 @@ func runScript(c *caseCtx, spec *scriptSpec) (out scriptOutcome) {
 		}()
 	}
 	pid := e.Spawn(producer, "scripted", opts...)
+	if spec.CtxCancel == 2 {
+		cancelSpawnCtx()
+	}
+	if spec.MW > 0 {
+		// a second actor built from the same slice, then the slice is overwritten
+		decoy := e.SpawnFunc(func(*actor.Context) {}, "decoy", actor.WithID("d"), actor.WithMiddleware(sharedMW...), actor.WithMiddleware(mkMW(99)))
+		for i := range sharedMW {
+			sharedMW[i] = mkMW(90 + i)
+		}
+		sp := sharedMW[:cap(sharedMW)]
+		for i := len(sharedMW); i < len(sp); i++ {
+			sp[i] = mkMW(80 + i)
+		}
+		defer e.Poison(decoy)
+	}
 	// C04: when Spawn returns the spawn-phase log is complete
 	atSpawn := rec.snapshot()
 	if len(atSpawn) < model.spawnLogLen {
@@ -882,7 +945,7 @@ func runScript(c *caseCtx, spec *scriptSpec) (out scriptOutcome) {
 	}
 	// senders
 	for _, ev := range out.observed {
-		if (ev.Kind == "msg" || ev.Kind == "crash" || ev.Kind == "gate") && ev.ID >= 0 {
+		if (ev.Kind == "msg" || ev.Kind == "crash" || ev.Kind == "gate" || ev.Kind == "icrash") && ev.ID >= 0 {
 			if ev.Sender != expSender(ev.ID) {
 				fail("message %d was delivered with sender %q, sent with %q", ev.ID, ev.Sender, expSender(ev.ID))
 				break
@@ -928,6 +991,9 @@ func finishScript(c *caseCtx, spec *scriptSpec, out *scriptOutcome) {
 	}
 	if m.stopped {
 		res.count("ended", 1)
+	}
+	if m.internalRestarts > 0 {
+		res.count("internal_error_restarts", int64(m.internalRestarts))
 	}
 	var exp []string
 	for _, e := range m.log {
@@ -1027,7 +1093,7 @@ func diffLogs(exp []expEv, obs []recEv, prefixOK bool) string {
 		}
 		e, o := exp[i], obs[i]
 		same := e.Inc == o.Inc && e.Kind == o.Kind
-		if same && (e.Kind == "msg" || e.Kind == "crash" || e.Kind == "gate") {
+		if same && (e.Kind == "msg" || e.Kind == "crash" || e.Kind == "gate" || e.Kind == "icrash") {
 			same = e.ID == o.ID
 		}
 		if !same {
